@@ -185,6 +185,64 @@ def _oracle(c, rng):
     return None, None
 
 
+def divergence_probe(rng, relift):
+    """one episode of a call diverges (a finite but huge initial condition whose lifting overflows); the OTHER episodes of
+    the same call must be predicted exactly as if they were predicted alone - episodes are independent"""
+    import logging
+    import warnings
+    rs = np.random.RandomState(rng.randint(0, 2 ** 31 - 1))
+    A = np.array([[0.9, 0.2], [-0.1, 0.8]])
+    B = np.array([[0.0], [0.5]])
+    blocks = []
+    for l in range(2):
+        n = 30
+        x = np.zeros((n, 2)); u = rs.randn(n, 1); x[0] = rs.randn(2)
+        for k in range(n - 1):
+            x[k + 1] = A @ x[k] + B @ u[k]
+        blocks.append((l, np.hstack((x, u))))
+    X = st.ref_combine(blocks, True)
+    d = rng.choice([0, 1])
+    lfs = [('pl', pykoop.PolynomialLiftingFn(order=2))] + ([('dl', pykoop.DelayLiftingFn(d, d))] if d else [])
+    kp = pykoop.KoopmanPipeline(lifting_functions=lfs, regressor=pykoop.Edmd(alpha=1e-6))
+    kp.fit(X, n_inputs=1, episode_feature=True)
+    m = kp.min_samples_
+    n = rng.randint(m + 3, m + 12)
+    labels = rng.sample(range(0, 9), rng.randint(2, 3))
+    bad = min(labels) if rng.random() < 0.7 else rng.choice(labels)        # usually the first one processed
+    x0, U = [], []
+    for l in labels:
+        ic = rs.randn(m, 2) * (1e200 if l == bad else 1.0)
+        x0.append((l, ic))
+        U.append((l, rs.randn(n, 1)))
+    X0m, Um = st.ref_combine(x0, True), st.ref_combine(U, True)
+    tag = {'relift': relift, 'probe': 'divergence'}
+    case = {'labels': labels, 'diverging': bad, 'min_samples': m, 'relift': relift, 'X0': X0m.tolist(), 'U': Um.tolist()}
+    lvl = logging.root.manager.disable
+    logging.disable(logging.CRITICAL)
+    try:
+        with warnings.catch_warnings():
+            warnings.simplefilter('ignore')
+            try:
+                both = kp.predict_trajectory(X0m, Um, relift_state=relift)
+            except Exception as ex:
+                return (f'predict_trajectory(relift_state={relift}) raises {type(ex).__name__} for the whole call because ONE '
+                        f'episode diverges ({ex}); the other episodes have ordinary predictions'), case, \
+                    dict(tag, outcome='call-raises-' + type(ex).__name__, min_samples='1' if m == 1 else '>=2')
+            for l in labels:
+                if l == bad:
+                    continue
+                alone = kp.predict_trajectory(st.ref_combine([(l, dict(x0)[l])], True), st.ref_combine([(l, dict(U)[l])], True),
+                                              relift_state=relift)
+                got = both[both[:, 0] == l]
+                if got.shape != alone.shape or not np.array_equal(got, alone, equal_nan=True):
+                    return (f'relift_state={relift}: the prediction of episode {l} changes when episode {bad} of the same call '
+                            f'diverges ({int(np.sum(~np.isfinite(got)))} non-finite entries instead of '
+                            f'{int(np.sum(~np.isfinite(alone)))})'), case, dict(tag, outcome='other-episode-changed')
+    finally:
+        logging.disable(lvl)
+    return None, case, tag
+
+
 def oracle(c, rng):
     try:
         return _oracle(c, rng)
@@ -314,6 +372,13 @@ def run(ctx):
             w, tags = oracle(fc, ctx.rng)
             if w:
                 ctx.fail(w, fc, tags)
+
+    for relift in (True, False):
+        for _ in range(ctx.n(3, 20)):
+            w, case, tags = divergence_probe(ctx.rng, relift)
+            ctx.count('divergence probe')
+            if w:
+                ctx.fail(w, case, tags)
 
     def search(ctx):
         for c in bad[:40]:
